@@ -23,7 +23,8 @@ V4 == Val("a b", "a b", FALSE)
 V5 == Val("q\"x\\y", "q\\\"x\\\\y", FALSE)                \* contains a quote and a backslash
 V6 == Val("x-_.9", "x-_.9", TRUE)
 V7 == Val("l1\nl2\tz", "l1\\nl2\\tz", FALSE)              \* newline and tab escapes
-Scalars == {V1, V2, V3, V4, V5, V6, V7}
+V8 == Val("a\r\nb\rc", "a\r\nb\rc", FALSE)                    \* a RAW carriage return + line feed (and a lone CR) inside the quotes
+Scalars == {V1, V2, V3, V4, V5, V6, V7, V8}
 Lists == { <<V1, V2>>, <<V4, V6, V3>>, <<V5, V1>>, <<>> }        \* incl. the empty list
 ValueOpts == { <<v>> : v \in Scalars } \cup Lists
 
